@@ -79,6 +79,18 @@ class NS(dict):
     frozen = ()
 
 
+class Key(NS):
+    """a model object that can be used as a dictionary key / set member (identity semantics, like most Python objects)"""
+    def __hash__(self):
+        return id(self)
+
+    def __eq__(self, o):
+        return self is o
+
+    def __ne__(self, o):
+        return self is not o
+
+
 class Native:
     """a callable attribute with a given constant behaviour (e.g. payload.flatten() -> a list of field tokens)"""
     def __init__(self, fn):
@@ -98,6 +110,7 @@ class Interp:
         self.created = []
         self.yields = None
         self.closures = {}
+        self.base = None        # module-level constants / models given to call(): visible in module-level functions called from here
         self.exact = exact      # exact: follow return / raise / continue precisely, give up (Unknowable) on anything unknown
         self.result = None
 
@@ -350,7 +363,7 @@ class Interp:
                         return U
                     bound[k.arg] = v
                 try:
-                    r = call(fdef, bound, consts=self.closures.get(fn), funcs=self.funcs, budget=self)
+                    r = call(fdef, bound, consts=self.closures.get(fn, self.base), funcs=self.funcs, budget=self)
                 except Unknowable:
                     if self.exact:
                         raise
@@ -432,7 +445,8 @@ class Interp:
                 # a plain constant: an instance of the builtin types only
                 c = e.args[1]
                 names_ = [x.id if isinstance(x, ast.Name) else getattr(x, "attr", None) for x in (c.elts if isinstance(c, ast.Tuple) else [c])]
-                bt = {"str": str, "int": int, "float": float, "bool": bool, "list": list, "tuple": tuple, "dict": dict, "set": set}
+                bt = {"str": str, "int": int, "float": float, "bool": bool, "list": list, "tuple": tuple, "dict": dict, "set": set,
+                      "Iterable": (list, tuple, dict, set, Gen)}
                 return any(n_ in bt and isinstance(args[0], bt[n_]) for n_ in names_)
             if fn == "next" and args and isinstance(args[0], Gen):
                 if args[0]:
@@ -721,6 +735,7 @@ def call(fn, args, consts=None, funcs=None, budget=None):
     names = [x.arg for x in a.posonlyargs + a.args]
     defaults = dict(zip(names[len(names) - len(a.defaults):], a.defaults))
     it = Interp(env, exact=True, funcs=funcs)
+    it.base = consts
     is_gen = any(isinstance(x, (ast.Yield, ast.YieldFrom)) for x in ast.walk(fn))
     if is_gen:
         it.yields = []
